@@ -69,7 +69,7 @@ def run(ctx):
             h = ctx.handler("C12.R1", ixn)
         except Exception:
             continue
-        ws = {w for w in prog.writes(h.key) if w[0].startswith(T)}
+        ws = {w for w in prog.writes(h.key) if w[0].startswith(T) and not w[1].startswith("=")}
         bad = sorted(w for w in ws if not allowed(*w) and w not in CONTAINERS)
         # containers are fine only if something inside them is allowed
         ctx.inst("C12.R1", "frame/" + ixn, not bad, "write-set of %s stays inside its remit" % ixn,
